@@ -140,6 +140,7 @@ fn client_bases(tier: Tier) -> Vec<CCfg> {
                         alphabet: alpha,
                         fault: None,
                         keep_root: false,
+                        start_age_ms: 0,
                     };
                     out.push(mk(callers.clone()));
                     // an abandoned call: produces a cancellation write
